@@ -179,6 +179,27 @@ def perturb(rng, V, amp):
     return [[x + rng.uniform(-amp, amp) for x in p] for p in V]
 
 
+def sheared(rng, big=False):
+    """a sheared, anisotropic lattice disk (optionally with relief): many NON-DELAUNAY interior edges (opposite angles add up to
+    more than pi, cot a + cot b < 0) and obtuse triangles along the border"""
+    nx, ny = rng.choice([(3, 3), (4, 3), (3, 4)] + ([(5, 5), (6, 4)] if big else []))
+    k = rng.choice([-1, 1]) * rng.uniform(0.9, 2.0)
+    sy = rng.uniform(0.6, 1.4)
+    relief = rng.random() < 0.4
+    V = []
+    for i in range(nx + 1):
+        for j in range(ny + 1):
+            V.append([i + k * j * sy, sy * j, (0.3 * math.sin(1.3 * i + 0.7 * j) if relief else 0.0)])
+    idx = lambda i, j: i * (ny + 1) + j
+    F = []
+    for i in range(nx):
+        for j in range(ny):
+            a, b, c, d = idx(i, j), idx(i + 1, j), idx(i + 1, j + 1), idx(i, j + 1)
+            # the diagonal that the shear makes the LONG one half of the time
+            F += [(a, b, c), (a, c, d)] if rng.random() < 0.5 else [(a, b, d), (b, c, d)]
+    return V, F, "sheared%dx%d" % (nx, ny), not relief
+
+
 def tiny(rng):
     """a single triangle / two triangles: every edge (but one) on the border"""
     if rng.random() < 0.5:
@@ -212,6 +233,11 @@ def _base_mesh(rng, tier="quick"):
             V, F, kind = tiny(rng)
             planar = kind == "tri1"
             return {"kind": kind, "V": V, "F": [list(f) for f in F], "planar": planar}
+        if rng.random() < 0.14:
+            V, F, kind, planar = sheared(rng, big)
+            if _nondegenerate(V, F, min_sin=0.06):
+                return {"kind": kind, "V": V, "F": [list(f) for f in F], "planar": planar}
+            continue
         if r < 0.30:
             nx, ny = rng.choice([(2, 2), (3, 2), (3, 3), (4, 3), (3, 4)] + ([(5, 4), (5, 5)] if big else []))
             planar = rng.random() < 0.5
